@@ -11,6 +11,8 @@
 {
  'before_update': {'file': 'brush-builtins/src/declare.rs', 'start': r'const fn apply_attributes_before_update\(', 'mode': 'fn_body', 'self_to': 'this'},
  'after_update': {'file': 'brush-builtins/src/declare.rs', 'start': r'fn apply_attributes_after_update\(', 'mode': 'fn_body', 'self_to': 'this'},
+ 'new_var': {'file': 'brush-builtins/src/declare.rs', 'start': r'let unset_type = if self\.make_indexed_array\.is_some\(\) \{', 'mode': 'until', 'end': r'context\.shell\.env_mut\(\)\.add\(name, var, scope\)\?;', 'self_to': 'this',
+        'rewrites': [[r'this\.apply_attributes_before_update\(&mut var\)', r't_before(this, &mut var)', 1], [r'this\.apply_attributes_after_update\(&mut var, verb\)', r't_after(this, &mut var, verb)', 1]]},
 }
 @*/
 use super::{DeclareVerb, ShellValue, ShellVariable, ShellVariableUpdateTransform};
@@ -19,7 +21,7 @@ use super::{DeclareVerb, ShellValue, ShellVariable, ShellVariableUpdateTransform
 pub struct Tri(pub u8);      // 0 not given, 1 -x (set), 2 +x (clear)
 impl Tri { pub const fn to_bool(&self) -> Option<bool> { match self.0 { 1 => Some(true), 2 => Some(false), _ => None } } }
 pub struct Flags { pub make_integer: Tri, pub capitalize_value_on_assignment: Tri, pub lowercase_value_on_assignment: Tri, pub make_nameref: Tri, pub make_traced: Tri,
-                   pub uppercase_value_on_assignment: Tri, pub make_exported: Tri, pub make_readonly: Tri }
+                   pub uppercase_value_on_assignment: Tri, pub make_exported: Tri, pub make_readonly: Tri, pub make_indexed_array: Option<bool>, pub make_associative_array: Option<bool> }
 
 fn t_before(this: &Flags, var: &mut ShellVariable) -> Result<(), brush_core::Error> {
 /*@LIFT before_update*/
@@ -38,7 +40,7 @@ fn tr_of(k: u8) -> ShellVariableUpdateTransform { match k { 0 => ShellVariableUp
 #[kani::unwind(3)]
 fn vk_c09_declare_attribute_flags() {
     let f = Flags { make_integer: any_tri(), capitalize_value_on_assignment: any_tri(), lowercase_value_on_assignment: any_tri(), make_nameref: any_tri(), make_traced: any_tri(),
-                    uppercase_value_on_assignment: any_tri(), make_exported: any_tri(), make_readonly: any_tri() };
+                    uppercase_value_on_assignment: any_tri(), make_exported: any_tri(), make_readonly: any_tri(), make_indexed_array: None, make_associative_array: None };
     let sets = (f.capitalize_value_on_assignment.0 == 1) as u8 + (f.lowercase_value_on_assignment.0 == 1) as u8 + (f.uppercase_value_on_assignment.0 == 1) as u8;
     kani::assume(sets <= 1);
     let mut v = ShellVariable::new(ShellValue::String(String::new()));
@@ -69,4 +71,46 @@ fn vk_c09_declare_attribute_flags() {
     else if f.make_readonly.0 == 2 { assert!(v.is_readonly() == r0 && ra.is_err() == r0, "C09.declare.plus_r_refused_on_readonly_variable"); }
     else { assert!(v.is_readonly() == r0 && ra.is_ok(), "C09.declare.readonly_untouched"); }
     std::mem::forget(rb); std::mem::forget(ra); std::mem::forget(v);
+}
+
+// ---------------------------------------------------------------- a variable that `local` / `declare` creates
+pub struct DOpts { pub export_variables_on_modification: bool }
+pub struct DEnv { pub shadowed: Option<ShellVariable> }
+impl DEnv { pub fn get(&self, _n: &str) -> Option<(brush_core::env::EnvironmentScope, &ShellVariable)> { self.shadowed.as_ref().map(|v| (brush_core::env::EnvironmentScope::Global, v)) } }
+pub struct DSh { pub o: DOpts, pub e: DEnv }
+impl DSh { pub fn options(&self) -> &DOpts { &self.o } pub fn env(&self) -> &DEnv { &self.e } }
+pub struct DCtx { pub shell: DSh }
+pub struct NameTok;
+impl NameTok { pub fn as_str(&self) -> &str { "x" } }
+
+#[allow(unused_variables, unused_mut)]
+fn t_new_var(this: &Flags, context: &mut DCtx, name: NameTok, verb: DeclareVerb, create_var_local: bool, name_is_array: bool) -> Result<(ShellVariable, EnvironmentScope), brush_core::Error> {
+    use brush_core::variables::{ShellValueLiteral, ShellValueUnsetType};
+    let initial_value: Option<ShellValueLiteral> = None;
+    /*@LIFT new_var*/
+    Ok((var, scope))
+}
+use brush_core::env::EnvironmentScope;
+
+//@proof {'props': ['C09'], 'tier': 'quick', 'timeout': 600, 'uses': ['before_update', 'after_update', 'new_var'], 'bounds': 'a name with no binding in the scope where `local` / `declare` creates one, no initial value; the variable it shadows: none / not exported / exported (symbolic); -x / +x / neither (symbolic); local or global creation (symbolic)', 'desc': 'creating a variable: a new LOCAL that shadows an exported variable is exported too (bash: children see the local\'s value, `export X=1; f() { local X=2; env; }`) unless +x is given; nothing else inherits export; -x always exports; the scope is the local one exactly when a local was asked for'}
+#[kani::proof]
+#[kani::unwind(3)]
+fn vk_c09_new_local_inherits_export() {
+    let f = Flags { make_integer: Tri(0), capitalize_value_on_assignment: Tri(0), lowercase_value_on_assignment: Tri(0), make_nameref: Tri(0), make_traced: Tri(0),
+                    uppercase_value_on_assignment: Tri(0), make_exported: any_tri(), make_readonly: Tri(0), make_indexed_array: None, make_associative_array: None };
+    let shadow_kind: u8 = kani::any(); kani::assume(shadow_kind < 3);     // 0 nothing shadowed, 1 not exported, 2 exported
+    let shadowed = match shadow_kind { 0 => None, 1 => Some(ShellVariable::new(ShellValue::String(String::new()))), _ => { let mut v = ShellVariable::new(ShellValue::String(String::new())); v.export(); Some(v) } };
+    let mut ctx = DCtx { shell: DSh { o: DOpts { export_variables_on_modification: false }, e: DEnv { shadowed } } };
+    let local: bool = kani::any();
+    let r = t_new_var(&f, &mut ctx, NameTok, if local { DeclareVerb::Local } else { DeclareVerb::Declare }, local, false);
+    kani::cover!(local && shadow_kind == 2 && f.make_exported.0 == 0, "plain_local_over_an_exported_variable");
+    match &r {
+        Ok((v, scope)) => {
+            let expect = match f.make_exported.0 { 1 => true, 2 => false, _ => local && shadow_kind == 2 };
+            assert!(v.is_exported() == expect, "C09.local.a_new_local_takes_over_the_export_attribute_of_what_it_shadows");
+            assert!(matches!(scope, EnvironmentScope::Local) == local, "C09.local.created_in_the_scope_asked_for");
+        }
+        Err(_) => assert!(false, "C09.local.creation_does_not_fail"),
+    }
+    std::mem::forget(r); std::mem::forget(ctx);
 }
